@@ -420,11 +420,28 @@ def run(tier, seed, replay=None):
                     specs.append(sp)
             crvs = [O.make_impl(s) for s in specs]
             fn = os.path.join(tmp, 'd%d.svg' % it)
-            args = dict(curves=[O.spec_json(s) for s in specs])
+            stepwise = rng.random() < 0.4
+            if stepwise:
+                # one object written several times, modified between the write calls (the file shows each state as it was
+                # when write() was called): the drawing holds the curve, the curve moved, the curve moved and turned
+                w0 = crvs[0].clone()
+                w1 = w0.clone().translate([3.0, -2.0])
+                w2 = w1.clone().rotate(0.5)
+                crvs = [w0, w1, w2]
+                specs = [O.snapshot(c_) for c_ in crvs]
+            args = dict(curves=[O.spec_json(s) for s in specs], stepwise=stepwise)
             nontriv.add(C.case_hash(args))
             try:
                 with SVG(fn) as f:
-                    f.write([c.clone() for c in crvs])
+                    if stepwise:
+                        live = w0.clone()
+                        f.write(live)
+                        live.translate([3.0, -2.0])
+                        f.write(live)
+                        live.rotate(0.5)
+                        f.write(live)
+                    else:
+                        f.write([c.clone() for c in crvs])
                 with SVG(fn) as f:
                     back = f.read()
                 count('svg')
